@@ -66,6 +66,7 @@ def hist_stream(ctx, drv, count):
                 reqs.append(dict(op="hist", sir=False, tmin=str(tmin), infs=[str(t) for t in it], recs=[str(t) for t in rt]))
                 metas.append((dict(entry="_transform_to_node_history_", stream="hist", sir=False, tmin=str(tmin),
                                    infs=[str(t) for t in it], recs=[str(t) for t in rt]), impl[v]))
+    generated_transform(ctx, reqs, metas)
     for (rep, h), r in zip(metas, drv.batch(reqs)):
         ctx.count("hist:%s" % ("SIR" if rep["sir"] else "SIS"))
         ctx.case(rep, nontrivial=True)
@@ -74,6 +75,38 @@ def hist_stream(ctx, drv, count):
             ctx.disagreement("hist-driver", dict(rep, resp=r))
         elif mine != [[t, s] for t, s in r["hist"]]:
             ctx.disagreement("hist", dict(rep, impl=mine, model=r["hist"]))
+
+
+def generated_transform(ctx, reqs, metas):
+    """the Lean code GENERATED from _transform_to_node_history_ (Gen/InvestGen.lean) on the same inputs"""
+    import fcntl, subprocess, os, json, pyinvest2lean, common
+    lean = common.LEAN
+    os.makedirs(os.path.join(lean, ".audit"), exist_ok=True)
+    with open(os.path.join(lean, ".audit", "geninv.lock"), "w") as lock:
+        fcntl.flock(lock, fcntl.LOCK_EX)
+        try:
+            _, errors = pyinvest2lean.regenerate()
+        except Exception as e:
+            errors = {"translator": "crashed: %r" % e}
+        if errors:
+            ctx.disagreement("generated-transform:translation", dict(entry="_transform_to_node_history_", errors=errors))
+            return
+        p = common.lake(["build", "driverinv"])
+    if p.returncode != 0:
+        ctx.disagreement("generated-transform:build", dict(entry="_transform_to_node_history_", log=(p.stdout + p.stderr)[-800:]))
+        return
+    exe = os.path.join(lean, ".lake", "build", "bin", "driverinv")
+    data = "\n".join(json.dumps(r, separators=(",", ":")) for r in reqs) + "\n"
+    q = subprocess.run([exe], input=data, capture_output=True, text=True)
+    lines = q.stdout.splitlines()
+    if q.returncode != 0 or len(lines) != len(reqs):
+        raise RuntimeError("driverinv crashed: " + q.stderr[-1000:])
+    for (rep, h), line in zip(metas, lines):
+        g = json.loads(line)
+        ctx.count("hist:generated-model-runs")
+        mine = [[str(F(t).limit_denominator(1024)), s] for t, s in zip(h[0], h[1])]
+        if not g.get("ok") or mine != [[t, s] for t, s in g["hist"]]:
+            ctx.disagreement("generated-transform", dict(rep, impl=mine, generated=g))
 
 
 def norminit_requests(c, out):
